@@ -1398,6 +1398,182 @@ pub fn oracle_prove_honest(c: &Case) -> Report {
     }
 }
 
+// ------------------------------------------------------------------------------------------
+// forged openings at the proof level (sub-check of C04)
+// ------------------------------------------------------------------------------------------
+
+pub const RULE_FORGED_OPENING: &str = "honest MMCS opening circuits (arity-2 degree-4 Poseidon2 configurations) whose \
+honest execution is proven; then ONE opened value (a public input) is changed in the Public table, the leaf-hash \
+(sponge) rows and everything else downstream are re-derived from it by the real executors, while the Merkle-mode \
+permutation rows and the slots they write keep their honest contents (the prover keeps the honest path to the \
+committed cap); proven and verified. Oracle: the native MMCS rejects the changed opened value, so the proof must be \
+rejected. Control: with the Merkle rows re-derived as well the proof must be rejected. Non-trivial = every case; \
+distinct on (configuration, leaves, hiding, cap, heights, which matrix level the changed value belongs to)";
+
+fn forged_opening_cfg<C: Mc, P: crate::pv::Pv<EF = C::EF, BF = C::F>>(c: &Case) -> Report {
+    use p3_circuit::ops::NpoTypeId;
+    use p3_circuit::ops::poseidon2_perm::Poseidon2Trace;
+    let sh = shape_of::<C>(c);
+    let index = pick(c.index, sh.max_height);
+    let com = commit_and_open::<C>(c, &sh, &[index]);
+    let o = com.openings.last().unwrap().clone();
+    let (classes, _) = shape_classes::<C>(&sh, o.cap.len(), o.sibs.len());
+    if cap_layer_ambiguous::<C>(&o.dims, o.cap.len()) {
+        return Report::pass().class("excluded_by_known_finding:cap-layer-width-ambiguous");
+    }
+    let Ok(bt) = build_circuit::<C>(&sh, &o) else {
+        return Report::discard("circuit not buildable");
+    };
+    let Ok(honest) = run_circuit_traces::<C>(&sh, &bt, &o) else {
+        return Report::discard("honest run rejected (C08's business)");
+    };
+    let circuit = &bt.circuit;
+    let ty = NpoTypeId::poseidon2_perm(C::cfg());
+    let Some(hp) = honest.non_primitive_trace::<Poseidon2Trace<C::F>>(&ty).cloned() else {
+        return Report::discard("no permutation rows");
+    };
+    // permutation ops in execution order <-> rows of the honest trace
+    let perm_ops: Vec<&p3_circuit::Op<C::EF>> = circuit
+        .ops
+        .iter()
+        .filter(|op| matches!(op, p3_circuit::Op::NonPrimitiveOpWithExecutor { executor, .. } if executor.op_type() == &ty))
+        .collect();
+    if perm_ops.len() != hp.operations.len() {
+        return Report::discard("permutation ops and trace rows do not line up");
+    }
+    let w0 = crate::forge::assignment_of::<P>(circuit, &honest);
+    // which opened value changes
+    let n_open: usize = bt.row_lens.iter().sum();
+    if n_open == 0 {
+        return Report::discard("nothing opened");
+    }
+    let k = pick(c.anchor, n_open);
+    let level = {
+        let mut acc = 0usize;
+        let mut m = 0usize;
+        for (i, l) in bt.row_lens.iter().enumerate() {
+            if k < acc + l {
+                m = i;
+                break;
+            }
+            acc += l;
+        }
+        level_class(&sh, m)
+    };
+    let slot = circuit.public_rows[k].0;
+    let mut pins: std::collections::HashMap<u32, C::EF> =
+        circuit.public_rows.iter().map(|w| (w.0, w0[w.0 as usize])).collect();
+    pins.insert(slot, w0[slot as usize] + C::EF::ONE);
+    let mut pins_all = pins.clone();
+    for (op, row) in perm_ops.iter().zip(&hp.operations) {
+        if row.merkle_path {
+            if let p3_circuit::Op::NonPrimitiveOpWithExecutor { outputs, .. } = op {
+                for wdx in outputs.iter().flatten() {
+                    pins_all.insert(wdx.0, w0[wdx.0 as usize]);
+                }
+            }
+        }
+    }
+    let npo = crate::pv::NpoSel {
+        recompose: true,
+        debug_lookups: false,
+        poseidon2: Some(C::cfg()),
+        poseidon1: None,
+    };
+    let pk = p3_circuit_prover::TablePacking::new(1 + (c.data_mode as usize % 3), 1 + (c.cap_height as usize % 4));
+    let setup = match P::setup(circuit, &pk, &npo) {
+        Ok(s) => s,
+        Err(crate::pv::PvErr::Setup(m)) if m.starts_with("UnclaimedPrivateInput") => {
+            return Report::discard("documented: unclaimed private input");
+        }
+        Err(e) => return Report::discard(format!("setup failed: {}", e.kind())),
+    };
+    let accepted = |t: &p3_circuit::Traces<C::EF>| match P::prove(&setup, t) {
+        Ok(p) => P::verify(&setup, &p).is_ok(),
+        Err(_) => false,
+    };
+    if !accepted(&honest) {
+        return Report::discard("honest proof rejected (C10's business)");
+    }
+    let rep = Report::pass()
+        .classes(classes)
+        .class(format!("cfg:{}", C::NAME))
+        .class(format!("changed:{level}"))
+        .nontrivial(true)
+        .key(hash_of(&(c.cfg % N_CFG, sh.ext, sh.hiding, sh.cap_height, &sh.heights, &level)));
+    // control: everything re-derived (the path leads to another root)
+    let control = match catch(|| crate::forge::reexecute::<P>(circuit, &honest, &pins, false)) {
+        Ok(Ok((_, t))) => {
+            // the control only means something if the changed value reaches a permutation row
+            let reached = t
+                .non_primitive_trace::<Poseidon2Trace<C::F>>(&ty)
+                .is_some_and(|fp| fp.operations.iter().zip(&hp.operations).any(|(a, b)| a.input_values != b.input_values));
+            if std::env::var("VERIF_DEBUG").is_ok() {
+                if let Some(fp) = t.non_primitive_trace::<Poseidon2Trace<C::F>>(&ty) {
+                    for (i, (a, b)) in fp.operations.iter().zip(&hp.operations).enumerate() {
+                        eprintln!("row {i} merkle={} new_start={} inputs_changed={} in_ctl={:?} out_ctl={:?}", b.merkle_path, b.new_start, a.input_values != b.input_values, b.in_ctl, b.out_ctl);
+                    }
+                }
+                eprintln!("changed public #{k} slot {slot}; reached={reached}");
+            }
+            if reached { Some(accepted(&t)) } else { None }
+        }
+        _ => None,
+    };
+    if control == Some(true) {
+        let mut r = rep;
+        r.verdict = crate::fw::Verdict::Fail {
+            sig: format!("C04/mmcs-opening-forged:{}:full-reexecution", variant::<C>(&sh)),
+            msg: format!("opened value #{k} ({level}) changed and everything re-derived: the proof is accepted although the recomputed root cannot equal the committed cap"),
+        };
+        return r;
+    }
+    // attack: honest Merkle rows, forged leaf hashing
+    let (_, mut t) = match catch(|| crate::forge::reexecute::<P>(circuit, &honest, &pins_all, false)) {
+        Ok(Ok(x)) => x,
+        _ => return rep.class("outcome:re-execution-failed"),
+    };
+    let Some(fp) = t.non_primitive_trace::<Poseidon2Trace<C::F>>(&ty).cloned() else {
+        return rep.class("outcome:re-execution-produced-no-permutation-trace");
+    };
+    if fp.operations.len() != hp.operations.len() {
+        return rep.class("outcome:re-execution-changed-the-row-count");
+    }
+    let mut spliced = fp.clone();
+    let mut leaf_rows_changed = false;
+    for (i, row) in hp.operations.iter().enumerate() {
+        if row.merkle_path {
+            spliced.operations[i] = row.clone();
+        } else if fp.operations[i].input_values != row.input_values {
+            leaf_rows_changed = true;
+        }
+    }
+    if !leaf_rows_changed {
+        return rep.class("outcome:changed-value-reaches-no-leaf-hash-row");
+    }
+    t.non_primitive_traces.insert(ty, Box::new(spliced));
+    if accepted(&t) {
+        let mut r = rep;
+        r.verdict = crate::fw::Verdict::Fail {
+            sig: "C04/mmcs-opening-forged:arity2:honest-merkle-rows-kept".to_string(),
+            msg: format!(
+                "[{}] opened value #{k} ({level}) changed in the Public table, leaf-hash rows re-derived, Merkle-mode rows kept honest: proof ACCEPTED, i.e. the proof attests an opening the native MMCS rejects (the digest a Merkle row takes as an exposed input is not tied to the slot the leaf hash writes)",
+                variant::<C>(&sh)
+            ),
+        };
+        return r;
+    }
+    rep.class("outcome:forged-opening-rejected")
+}
+
+pub fn oracle_forged_opening(c: &Case) -> Report {
+    match c.cfg % N_CFG {
+        0 => forged_opening_cfg::<KbD4W16, crate::fields::Kb4>(c),
+        2 => forged_opening_cfg::<BbD4W16, crate::fields::Bb4>(c),
+        _ => Report::discard("configuration has no prover table support in the harness"),
+    }
+}
+
 /// The same, with the leaf widths steered so that the permutation table is exactly full.
 pub fn oracle_prove_honest_full(c: &Case) -> Report {
     FULL_TABLE.with(|f| f.set(true));
